@@ -123,6 +123,11 @@ def gen(rng, tier):
             saddr = bytes([0] * 10 + [255, rng.choice([255, 254])]) + src[12:]
         cs.append(Case(f"findconf {want} {1 if serverp else 0} {sfam} {hexs(saddr)} {srcport} " + " ".join(toks),
                        kind="findconf", blocks=nblocks, multi=multi, nontriv=wantcount >= 2))
+    # whole TLS connections through the real tlsservernew: handshake, certificate chain, and the walk over the client blocks that list
+    # the peer's address until one accepts its certificate
+    import tlsgen
+    for _ in range(250 if tier == "quick" else 6000):
+        cs.append(Case(tlsgen.tlsconn_line(rng), kind="tlsconn", tls=1))
     return cs
 
 
